@@ -64,6 +64,7 @@ fn base_tasks() -> Vec<ExtTask> {
         mk("out(X) :- in(X), not aux(X). aux(X) :- in(X), X > 1.", false, "aux(X) :- in(X), X <= 1. out(X) :- aux(X).", "input: in/1. output: out/1."),
         mk("spec(universal)[s1]: forall X (out(X) -> in(X)). spec(backward)[s2]: forall X (in(X) -> out(X)). assumption(forward)[a1]: forall X (in(X) -> X > 0).", true, "out(X) :- in(X).", "input: in/1. output: out/1."),
         mk("out(X) :- in(X), X <= n.", false, "out(X) :- in(X), not X > n.", "input: in/1. output: out/1. input: n -> integer."),
+        mk("spec(universal)[s1]: forall X (out(X) <-> in(X)). assumption(backward)[ab]: forall X (in(X) -> X > 0). assumption(forward)[af]: exists X in(X).", true, "out(X) :- in(X).", "input: in/1. output: out/1."),
         mk("out(X) :- in(X).", false, "out(X) :- in(X), not not in(X).", "input: in/1. input: in2/1. output: out/1. assumption[ug1]: exists X in2(X)."),
         mk("out(X) :- in(X).", false, "out(X) :- in(X), not not in(X).", "input: in/1. input: in2/1. output: out/1."),
     ]
@@ -115,6 +116,20 @@ fn check_family(
     placeholders: &indexmap::IndexMap<String, fol::FunctionConstant>,
 ) -> Vec<(String, Value)> {
     let mut out = vec![];
+    // routing of the ANNOTATED formulas of the base tasks, stated independently of anthem: an
+    // assumption(backward) of a specification is ignored (never an axiom), an assumption(forward) of a
+    // specification is a premise of the forward direction only. The names are those given in base_tasks().
+    for p in problems.iter().chain(plain.iter()) {
+        for f in p.formulas.iter().filter(|f| f.role == Role::Axiom) {
+            let n = strip(&f.name);
+            if n == "ab" {
+                out.push(("ignored_assumption_used_as_axiom".to_string(), json!({"kind": "a specification's assumption(backward) occurs as an axiom", "problem": p.name, "formula": f.formula.to_string()})));
+            }
+            if (n == "a1" || n == "af") && !p.name.starts_with("forward") {
+                out.push(("forward_assumption_in_backward_problem".to_string(), json!({"kind": "a specification's assumption(forward) occurs as an axiom outside the forward direction", "problem": p.name, "formula": f.formula.to_string()})));
+            }
+        }
+    }
     for d in ["forward", "backward"] {
         if task_dir != "universal" && task_dir != d {
             if problems.iter().any(|p| p.name.starts_with(d)) {
